@@ -3864,6 +3864,7 @@ static int bufr_load_datasubsets( FILE *fp, BUFR_Dataset *dts, int lineno, BUFR_
 
                   tmpbuf = (char *)malloc( (len+1)*sizeof(char) );
                   bufr_missing_string( tmpbuf, len );
+                  tmpbuf[len] = '\0';
                   bufr_descriptor_set_svalue( cb, tmpbuf );
                   free( tmpbuf );
                   }
